@@ -979,7 +979,7 @@ func deriveBases(c *core.Ctx, bases []*base) []derived {
 	lap("fill")
 	sortDerived(d.out)
 	a := append([]derived(nil), d.out...)
-	d.stageB(a, false, c.Pick(1500, 30000))
+	d.stageB(a, false, c.Pick(1500, 8000))
 	lap("refer-inward")
 	sortDerived(d.out)
 	var b1 []derived
@@ -988,7 +988,7 @@ func deriveBases(c *core.Ctx, bases []*base) []derived {
 			b1 = append(b1, dv)
 		}
 	}
-	d.stageB(b1, true, c.Pick(1500, 30000))
+	d.stageB(b1, true, c.Pick(1500, 8000))
 	lap("refer-outward")
 	tasks := map[string][]func() bool{}
 	for _, b := range ex {
